@@ -296,6 +296,7 @@ var msgPatterns = []interface{}{
 	"str",
 	[]interface{}{"?e"},
 	[]interface{}{1.0, "?e"},
+	[]interface{}{"?e", 2.0, 1.0},
 	map[string]interface{}{},
 	map[string]interface{}{"?p": "a"},
 	map[string]interface{}{"n": "?<lim"},
